@@ -52,12 +52,12 @@ func (c08) NumCases(t core.Tier) int { return tierN(t, 8, 48) }
 type c08call struct {
 	jsonNull bool // a JSON body `null` through zjson with a formatter stamping the call id (front-end created issue)
 	schema   int
-	mode   ref.Mode
-	data   any
-	val    any
-	alt    bool // parse into the destination type with reversed field order
-	want   string
-	desc   string
+	mode     ref.Mode
+	data     any
+	val      any
+	alt      bool // parse into the destination type with reversed field order
+	want     string
+	desc     string
 }
 
 type c08shared struct {
